@@ -7,6 +7,8 @@ import vlib
 from vlib import InfraError, log, pmap, workdir, WORK, VERIF, execution_slice, read_lines, label_line
 import vecpipe
 from vecpipe import ImplCfg
+import setpipe
+from setpipe import SetCfg
 
 ALL_ITS = ['ptr', 'input', 'fwd', 'bidir', 'ra', 'move']
 
@@ -91,7 +93,7 @@ def export_models(d, jobs):
     uniq = {}
     for cfg, params in jobs:
         uniq.setdefault(json.dumps([cfg.model(), params], sort_keys=True), (cfg, params))
-    vlib.pmap_proc(vecpipe.mc_export_job, [(d, cp[0].model(), cp[1], cp[0].name) for cp in uniq.values()], workers=6)
+    vlib.pmap_proc(vecpipe.mc_export_job, [(d, cp[0].model(), cp[1], cp[0].name) for cp in uniq.values()], workers=4)
 
 
 def suite_dir(name, tier, seed):
@@ -172,7 +174,7 @@ def suite_vec(tier, seed):
         for kind, cfg, params in jobs:
             k = json.dumps([cfg.model(), params], sort_keys=True)
             uniq.setdefault(k, (cfg, params))
-        vlib.pmap_proc(vecpipe.mc_export_job, [(d, cp[0].model(), cp[1], cp[0].name) for cp in uniq.values()], workers=6)
+        vlib.pmap_proc(vecpipe.mc_export_job, [(d, cp[0].model(), cp[1], cp[0].name) for cp in uniq.values()], workers=4)
         results = pmap(one, jobs, workers=8)
         # simulation behaviours of a larger model (beyond the exhaustive scope)
         simjobs = []
@@ -391,7 +393,7 @@ def suite_fault(tier, seed):
         uniq = {}
         for cfg, params in jobs:
             uniq.setdefault(json.dumps([cfg.model(), params], sort_keys=True), (cfg, params))
-        vlib.pmap_proc(vecpipe.mc_export_job, [(d, cp[0].model(), cp[1], cp[0].name) for cp in uniq.values()], workers=6)
+        vlib.pmap_proc(vecpipe.mc_export_job, [(d, cp[0].model(), cp[1], cp[0].name) for cp in uniq.values()], workers=4)
 
         def one(job):
             cfg, params = job
@@ -407,9 +409,151 @@ def suite_fault(tier, seed):
 
 
 # ------------------------------------------------------------------------------------------------------------------
+# sets
+SET2_OPS = ('{"swap", "assignCopy", "assignMove", "eq", "lt", "ge", "mergeSame", "ctorIlist", "ctorCopy", "ctorMove", "destroy", '
+            '"insert", "eraseKey", "mergeOther"}')
+
+
+def set_configs(tier):
+    F, S, R = 'flat', 'small', 'std'
+    one = [
+        ('fl_NTR_stdlike', 'NTR', 'stdlike', [(F, 'CmpT')]),
+        ('fl_TR_amcled', 'TR', 'amcled', [(F, 'CmpT')]),
+        ('fl_small2_NTR', 'NTR', 'amcled', [(F, 'Cmp', 0, None, 'small2')]),
+        ('fl_fixed8_TC', 'TC', 'stdlike', [(F, 'Cmp', 0, None, 'fixed8')]),
+        ('fl_stdvec_NTR', 'NTR', 'stdlike', [(F, 'CmpT', 0, None, 'std')]),
+        ('sm2_NTR_stdlike', 'NTR', 'stdlike', [(S, 'CmpT', 2)]),
+        ('sm3_TR_amcled_flat', 'TR', 'amcled', [(S, 'CmpT', 3, 'flat')]),
+        ('sm1_TC_amc', 'TC', 'amc', [(S, 'Cmp', 1)]),
+        ('ref_stdset_NTR', 'NTR', 'stdlike', [(R, 'CmpT')]),
+    ]
+    two = [
+        ('p_fl_NTR', 'NTR', 'stdlike', [(F, 'Cmp')] * 2),
+        ('p_flx_TR', 'TR', 'amcled', [(F, 'Cmp'), (F, 'Cmp2')]),
+        ('p_sm2_NTR', 'NTR', 'stdlike', [(S, 'Cmp', 2)] * 2),
+        ('p_smx_NTR', 'NTR', 'amcled', [(S, 'Cmp', 2), (S, 'Cmp2', 3)]),
+        ('p_sm2flat_TR', 'TR', 'stdlike', [(S, 'Cmp', 2, 'flat')] * 2),
+        ('p_ref_stdset', 'NTR', 'stdlike', [(R, 'Cmp')] * 2),
+    ]
+    if tier == 'thorough':
+        one += [
+            ('fl_TC_amc', 'TC', 'amc', [(F, 'Cmp')]),
+            ('fl_small6_TR', 'TR', 'withrealloc', [(F, 'CmpT', 0, None, 'small6')]),
+            ('sm4_NTR_flat', 'NTR', 'stdlike', [(S, 'Cmp', 4, 'flat')]),
+            ('sm2_TR_withrealloc', 'TR', 'withrealloc', [(S, 'CmpT', 2)]),
+        ]
+        two += [
+            ('p_fl_small2_NTR', 'NTR', 'amcled', [(F, 'Cmp', 0, None, 'small2')] * 2),
+            ('p_smxflat_NTR', 'NTR', 'stdlike', [(S, 'Cmp', 3, 'flat'), (S, 'Cmp2', 2, 'flat')]),
+            ('p_ref_stdsetx', 'NTR', 'stdlike', [(R, 'Cmp'), (R, 'Cmp2')]),
+        ]
+    return [SetCfg(n, e, a, sl) for n, e, a, sl in one], [SetCfg(n, e, a, sl) for n, e, a, sl in two]
+
+
+def run_set_script(d, cfg, script, tag, batch=200):
+    binary = setpipe.build_set_harness(d, cfg)
+    trace = os.path.join(workdir(d, 'traces'), '%s_%s.ndjson' % (cfg.name, tag))
+    dt_run, out = vecpipe.record(binary, script, trace, batch=batch)
+    v = setpipe.validate_set(d, trace, '%s_%s' % (cfg.name, tag))
+    v.update(config=cfg.name, tag=tag, trace=trace, run_wall=dt_run, script=script, is_ref=cfg.is_ref())
+    return v
+
+
+def suite_sets(tier, seed):
+    def compute(d):
+        one, two = set_configs(tier)
+        if tier == 'quick':
+            p1 = dict(Keys=[0, 1, 2, 3], Cms=[0, 3], Its=['ptr', 'input'], RLens=[0, 1, 2], MaxLen=4, Ops='SAllOps', WalkLen=300)
+            p2 = dict(Keys=[0, 1, 2], Cms=[0, 1], Its=['ptr'], RLens=[0, 2], MaxLen=3, Ops=SET2_OPS, WalkLen=300)
+        else:
+            p1 = dict(Keys=[0, 1, 2, 3, 4], Cms=[0, 1, 2, 3], Its=ALL_ITS, RLens=[0, 1, 2, 3], MaxLen=5, Ops='SAllOps', WalkLen=400)
+            p2 = dict(Keys=[0, 1, 2, 3], Cms=[0, 1, 2], Its=['ptr'], RLens=[0, 2, 3], MaxLen=4, Ops=SET2_OPS, WalkLen=400)
+        jobs = [(c, p1) for c in one] + [(c, p2) for c in two]
+        uniq = {}
+        for cfg, params in jobs:
+            uniq.setdefault(json.dumps([cfg.model(), params], sort_keys=True), (cfg, params))
+        vlib.pmap_proc(setpipe.smc_export_job, [(d, cp[0].model(), cp[1], cp[0].name) for cp in uniq.values()], workers=4)
+        hint = setpipe.hint_theorem(d, range(7), [0, 1, 2, 3])
+
+        def one_job(job):
+            cfg, params = job
+            md, info = setpipe.smc_export(d, cfg.model(), params, cfg.name)
+            r = run_set_script(d, cfg, os.path.join(md, 'walks.script'), 'walks')
+            r['mc'] = info
+            r['kind'] = 'set1' if cfg.model()['KS'] == 1 else 'set2'
+            return r
+        results = pmap(one_job, jobs, workers=8)
+        # simulated behaviours of a larger scope
+        nsim = 300 if tier == 'quick' else 3000
+        F, S, R = 'flat', 'small', 'std'
+        sims = [SetCfg('sim_fl_NTR', 'NTR', 'stdlike', [(F, 'Cmp'), (F, 'Cmp'), (F, 'Cmp2')]),
+                SetCfg('sim_sm_TR', 'TR', 'amcled', [(S, 'Cmp', 2), (S, 'Cmp', 2), (S, 'Cmp2', 4)]),
+                SetCfg('sim_smflat_NTR', 'NTR', 'stdlike', [(S, 'CmpT', 3, 'flat'), (S, 'CmpT', 3, 'flat'), (F, 'CmpT')]),
+                SetCfg('sim_ref_stdset', 'NTR', 'stdlike', [(R, 'Cmp'), (R, 'Cmp'), (R, 'Cmp2')])]
+        psim = dict(Keys=list(range(8)), Cms=[0, 1, 2, 3], Its=ALL_ITS, RLens=[0, 1, 2, 3], MaxLen=7, Ops='SAllOps')
+
+        def onesim(cfg):
+            sd, info = setpipe.ssim(d, cfg.model(), psim, nsim, 60, seed, cfg.name)
+            r = run_set_script(d, cfg, os.path.join(sd, 'sim.script'), 'sim')
+            r['sim'] = info
+            r['kind'] = 'setsim'
+            return r
+        results += pmap(onesim, sims, workers=6)
+        return dict(results=results, hint=hint)
+    return cached_suite('sets', tier, seed, compute)
+
+
+SET_NO_FAULT = {'find', 'contains', 'count', 'lowerBound', 'upperBound', 'equalRange', 'findK', 'containsK', 'countK',
+                'lowerBoundK', 'upperBoundK', 'iterate', 'relocate', 'destroy', 'eq', 'ne', 'lt', 'le', 'gt', 'ge', 'dropNode'}
+
+
+def suite_setfault(tier, seed):
+    def compute(d):
+        F, S = 'flat', 'small'
+        cfgs1 = [SetCfg('sf_fl_NTR_amcled', 'NTR', 'amcled', [(F, 'Cmp')]),
+                 SetCfg('sf_fl_small2_TR', 'TR', 'stdlike', [(F, 'Cmp', 0, None, 'small2')]),
+                 SetCfg('sf_sm2_NTR_stdlike', 'NTR', 'stdlike', [(S, 'Cmp', 2)]),
+                 SetCfg('sf_sm2flat_NTR', 'NTR', 'amcled', [(S, 'Cmp', 2, 'flat')])]
+        cfgs2 = [SetCfg('sf_p_fl_NTR', 'NTR', 'stdlike', [(F, 'Cmp')] * 2),
+                 SetCfg('sf_p_flx_NTR', 'NTR', 'amcled', [(F, 'Cmp'), (F, 'Cmp2')]),
+                 SetCfg('sf_p_sm2_NTR', 'NTR', 'stdlike', [(S, 'Cmp', 2)] * 2)]
+        if tier == 'thorough':
+            cfgs1 += [SetCfg('sf_fl_TR_withrealloc', 'TR', 'withrealloc', [(F, 'CmpT')]),
+                      SetCfg('sf_sm3_TR_amcled', 'TR', 'amcled', [(S, 'CmpT', 3)])]
+            cfgs2 += [SetCfg('sf_p_smx_NTR', 'NTR', 'amcled', [(S, 'Cmp', 2), (S, 'Cmp2', 3)])]
+        p1 = dict(Keys=[0, 1, 2] if tier == 'quick' else [0, 1, 2, 3], Cms=[0, 3], Its=['ptr', 'input'], RLens=[0, 1, 2], MaxLen=3,
+                  Ops='SAllOps', WalkLen=300)
+        p2 = dict(Keys=[0, 1, 2], Cms=[0, 1], Its=['ptr'], RLens=[0, 2], MaxLen=3,
+                  Ops='{"mergeSame", "mergeOther", "swap", "assignCopy", "assignMove", "ctorIlist", "ctorCopy", "ctorMove", "destroy", "insert"}',
+                  WalkLen=300)
+        jobs = [(c, p1) for c in cfgs1] + [(c, p2) for c in cfgs2]
+        uniq = {}
+        for cfg, params in jobs:
+            uniq.setdefault(json.dumps([cfg.model(), params], sort_keys=True), (cfg, params))
+        vlib.pmap_proc(setpipe.smc_export_job, [(d, cp[0].model(), cp[1], cp[0].name) for cp in uniq.values()], workers=4)
+
+        def one(job):
+            cfg, params = job
+            md, info = setpipe.smc_export(d, cfg.model(), params, cfg.name)
+            script, finfo = vecpipe.fault_script(
+                md, max_probes=None if tier == 'thorough' else 5000, seed=seed, label_fn=setpipe.slabel_line,
+                epilogue=lambda c: ['?insert %d 0 1 0 0 0 - 0 0' % c, '?eraseKey %d 0 1 0 0 0 - 0 0' % c, '?clear %d 0 0 0 0 0 - 0 0' % c],
+                no_fault_ops=SET_NO_FAULT)
+            r = run_set_script(d, cfg, script, 'faults', batch=300)
+            r['mc'] = info
+            r['fault_info'] = finfo
+            r['kind'] = 'setfault'
+            return r
+        return dict(results=pmap(one, jobs, workers=8))
+    return cached_suite('setfault', tier, seed, compute)
+
+
+SET_PROPS = {'C03', 'C04', 'C11', 'C12', 'C19'}
+
+# ------------------------------------------------------------------------------------------------------------------
 VEC_PROPS = {'C01', 'C02', 'C05', 'C06', 'C07', 'C10'}
 
-RELEVANT_STAT = {'C18': 'ops', 'C08': 'limitExc', 'C13': 'ops', 'C14': 'ops', 'C09': 'faults', 'C01': 'ops', 'C02': 'prims', 'C05': 'pristineOps', 'C06': 'allocEvents', 'C07': 'stable', 'C10': 'alias'}
+RELEVANT_STAT = {'C03': 'ops', 'C04': 'ops', 'C11': 'iterOps', 'C12': 'hints', 'C19': 'lookups', 'C18': 'ops', 'C08': 'limitExc', 'C13': 'ops', 'C14': 'ops', 'C09': 'faults', 'C01': 'ops', 'C02': 'prims', 'C05': 'pristineOps', 'C06': 'allocEvents', 'C07': 'stable', 'C10': 'alias'}
 
 
 def make_replay(prop, r, v):
@@ -432,8 +576,8 @@ def collect(prop, suite_results):
                 model_errors.append('%s line %d: %s' % (r['config'], v['l'], v['why']))
             elif r.get('is_ref'):
                 # the reference implementation (std::vector) disagrees with the specification: the spec is wrong
-                if v['p'] in ('C01', 'C10', 'C08'):
-                    model_errors.append('specification rejects std::vector: %s line %d: %s' % (r['config'], v['l'], v['why']))
+                if v['p'] in ('C01', 'C10', 'C08', 'C03', 'C04', 'C11', 'C12'):
+                    model_errors.append('specification rejects the reference implementation (std::vector / std::set): %s line %d: %s' % (r['config'], v['l'], v['why']))
             elif v['p'] == prop:
                 path, label = make_replay(prop, r, v)
                 viols.append(dict(config=r['config'], line=v['l'], why=v['why'], replay=path, label=label))
@@ -473,47 +617,55 @@ def evidence_vec(prop, res, extra_notes=None):
                              'TLC 1.8 and the JSON/IOUtils community modules'])
 
 
+SUITE_FN = {}
+PROP_SUITES = {
+    'C01': ['vec'], 'C02': ['vec', 'swap2', 'fault', 'sets', 'setfault'], 'C03': ['sets'], 'C04': ['sets'], 'C05': ['vec', 'sets'],
+    'C06': ['vec', 'swap2', 'fault', 'sets', 'setfault'], 'C07': ['vec'], 'C08': ['limit'], 'C09': ['fault', 'setfault'],
+    'C10': ['vec'], 'C11': ['sets'], 'C12': ['sets'], 'C13': ['swap2'], 'C14': ['vec', 'swap2', 'sets'], 'C18': ['vec', 'growth'],
+    'C19': ['sets'],
+}
+
+
 def run_property(prop, tier, seed):
-    if prop in VEC_PROPS or prop in ('C08', 'C09', 'C13', 'C14', 'C18'):
-        res = suite_vec(tier, seed) if prop not in ('C08', 'C09', 'C13') else dict(results=[], wall=0, cached=True)
-        gm = None
-        if prop == 'C18':
-            gr = suite_growth(tier, seed)
-            gm = gr['growth_model']
-            res = dict(results=res['results'] + gr['results'], wall=res.get('wall', 0) + gr.get('wall', 0),
-                       cached=res.get('cached') and gr.get('cached'))
-        if prop == 'C08':
-            lr = suite_limit(tier, seed)
-            res = dict(results=res['results'] + lr['results'], wall=res.get('wall', 0) + lr.get('wall', 0),
-                       cached=res.get('cached') and lr.get('cached'))
-        if prop in ('C13', 'C02', 'C06', 'C14'):
-            sr = suite_swap2(tier, seed)
-            res = dict(results=res['results'] + sr['results'], wall=res.get('wall', 0) + sr.get('wall', 0),
-                       cached=res.get('cached') and sr.get('cached'))
-        if prop in ('C09', 'C02', 'C06'):
-            fr = suite_fault(tier, seed)
-            res = dict(results=res['results'] + fr['results'], wall=res.get('wall', 0) + fr.get('wall', 0),
-                       cached=res.get('cached') and fr.get('cached'))
-        viols, merr = collect(prop, res['results'])
-        ev = evidence_vec(prop, res)
-        if gm:
-            ev['coverage']['states'] += gm['states']
-            ev['coverage']['transitions'] += gm['generated']
-            ev['coverage']['growth_model'] = gm
-        if prop == 'C09':
-            ev['level'] = 'fault_enumeration'
-            nf = sum(r['stats'].get('faults', 0) for r in res['results'])
-            npr = sum(r.get('fault_info', {}).get('probes', 0) for r in res['results'])
-            ev['coverage'].update(evaluations=sum(r['stats'].get('execs', 0) for r in res['results']), distinct_nontrivial=nf,
-                                  rule='one probe per (reachable state, call) edge of the TLC model whose call can throw; each probe is '
-                                       're-executed with the k-th throwing event (element construction / copy / copy assignment, allocator '
-                                       'call) failing for k = 1, 2, ... until the call completes; distinct_nontrivial counts the executions '
-                                       'in which a failure was actually injected and the outcome judged by TLC', probes=npr)
-        return dict(violations=viols, model_errors=merr, evidence=ev,
-                    summary='configs=%d ops=%d transitions=%d drift=%d' % (
-                        len(res['results']), ev['coverage']['ops_validated'], ev['coverage']['transitions'],
-                        ev['coverage']['design_drift']))
-    raise InfraError('no check for property %s' % prop)
+    SUITE_FN.update(vec=suite_vec, swap2=suite_swap2, fault=suite_fault, limit=suite_limit, growth=suite_growth, sets=suite_sets,
+                    setfault=suite_setfault)
+    if prop not in PROP_SUITES:
+        raise InfraError('no check for property %s' % prop)
+    results, wall, cached, extra = [], 0.0, True, {}
+    for name in PROP_SUITES[prop]:
+        r = SUITE_FN[name](tier, seed)
+        results += r['results']
+        wall += r.get('wall', 0)
+        cached = cached and r.get('cached', False)
+        for k in ('hint', 'growth_model'):
+            if k in r:
+                extra[k] = r[k]
+    res = dict(results=results, wall=wall, cached=cached)
+    viols, merr = collect(prop, results)
+    ev = evidence_vec(prop, res)
+    cov = ev['coverage']
+    if 'growth_model' in extra and prop == 'C18':
+        cov['states'] += extra['growth_model']['states']
+        cov['transitions'] += extra['growth_model']['generated']
+        cov['growth_model'] = extra['growth_model']
+    if 'hint' in extra and prop in ('C12', 'C19'):
+        cov['hint_theorem'] = extra['hint']
+        cov['transitions'] += extra['hint']['instances']
+    if prop in ('C19', 'C12'):
+        cov['max_lookup_cmps'] = max([r['stats'].get('maxLookupCmps', 0) for r in results] + [0])
+        cov['max_correct_hint_cmps'] = max([r['stats'].get('maxHintCmps', 0) for r in results] + [0])
+    if prop == 'C09':
+        ev['level'] = 'fault_enumeration'
+        nf = sum(r['stats'].get('faults', 0) for r in results)
+        npr = sum(r.get('fault_info', {}).get('probes', 0) for r in results)
+        cov.update(evaluations=sum(r['stats'].get('execs', 0) for r in results), distinct_nontrivial=nf, probes=npr,
+                   rule='one probe per (reachable state, call) edge of the TLC models (vectors and sets) whose call can throw; each '
+                        'probe is re-executed with the k-th throwing event (element construction / copy / copy assignment, '
+                        'allocator call) failing for k = 1, 2, ... until the call completes; distinct_nontrivial counts the '
+                        'executions in which a failure was actually injected and the outcome judged by TLC')
+    return dict(violations=viols, model_errors=merr, evidence=ev,
+                summary='suites=%s configs=%d ops=%d transitions=%d drift=%d' % (
+                    '+'.join(PROP_SUITES[prop]), len(results), cov['ops_validated'], cov['transitions'], cov['design_drift']))
 
 
 def replay(path):
